@@ -110,6 +110,14 @@ func inputs(thorough bool) []input {
 		}
 		in = append(in, input{fmt.Sprintf("over-token-boundary%+d", d), sql})
 	}
+	// the bulk of the input below one level of nesting: a derived table, a CTE body, a function call, a parenthesised sum
+	for _, n := range []int{1030, 5000} {
+		cols := strings.TrimSuffix(strings.Repeat("c1, ", n), ", ")
+		in = append(in, input{fmt.Sprintf("over-big-derived-%d", n), "SELECT * FROM (SELECT " + cols + " FROM t) d"})
+		in = append(in, input{fmt.Sprintf("over-big-cte-%d", n), "WITH w AS (SELECT " + cols + " FROM t) SELECT * FROM w"})
+		in = append(in, input{fmt.Sprintf("over-big-call-%d", n), "SELECT f(" + cols + ") FROM t"})
+		in = append(in, input{fmt.Sprintf("over-big-paren-sum-%d", n), "SELECT (" + strings.TrimSuffix(strings.Repeat("1 + ", n), " + ") + ") FROM t"})
+	}
 	// limit violations (huge inputs: only the polls 0, 1, 2, P/2, P-2, P-1, P are fired): the dedicated limit error must not take precedence over a context that is already done
 	in = append(in, input{"over-size-limit", "SELECT 1 " + strings.Repeat(" ", tokenizer.MaxInputSize)})
 	if thorough {
@@ -324,7 +332,7 @@ func Check() *common.Check {
 		// every case is recorded before it runs: a fatal error or a hang of the worker is attributed to it
 		CrashSafe: true,
 		MemLimit:  8 << 30, // the token-limit boundary inputs are trees of a million tokens
-		Rule: "(every fault point also with two other kinds of context - one cancelled with a cause of the caller's own, one hand-written around a live standard context - except for the clause-option inputs) for each input (one statement per poll-site context: plain, CTE, nested CTE, CASE, scalar/IN/EXISTS/quantified sub-query, derived table, JOIN ON, set operation, function argument, BETWEEN/IN/LIKE, array index, INSERT…SELECT, DML, script, invalid, 250- and 1000-token lists, statements and scripts of about 300 / 1030 / 2060 / 5000 tokens with two-word keywords all along (sparse polls), 26 lexical layouts, every clause option of sqlgen, inputs of MaxTokens-1 .. MaxTokens+2 tokens (entry poll and never-firing context only), an input one byte over the size limit (thorough: one over the token limit; polls 0-2, P/2, P-2..P only); " +
+		Rule: "(every fault point also with two other kinds of context - one cancelled with a cause of the caller's own, one hand-written around a live standard context - except for the clause-option inputs) for each input (one statement per poll-site context: plain, CTE, nested CTE, CASE, scalar/IN/EXISTS/quantified sub-query, derived table, JOIN ON, set operation, function argument, BETWEEN/IN/LIKE, array index, INSERT…SELECT, DML, script, invalid, 250- and 1000-token lists, statements and scripts of about 300 / 1030 / 2060 / 5000 tokens with two-word keywords all along and with their bulk below one level of nesting (sparse polls; at least one poll per 128 tokens in the undisturbed run), 26 lexical layouts, every clause option of sqlgen, inputs of MaxTokens-1 .. MaxTokens+2 tokens (entry poll and never-firing context only), an input one byte over the size limit (thorough: one over the token limit; polls 0-2, P/2, P-2..P only); " +
 			"thorough adds comments, empty input, tokenizer error, MERGE, CREATE TABLE, window frame, 2500 tokens and every expression hole of sqlgen.Holes() filled with a nested expression) and each of gosqlx.ParseWithContext, Tokenizer.TokenizeContext, Parser.ParseContextFromModelTokens: " +
 			"gosqlx.ParseWithTimeout with timeouts 0, -1ns, -1ms, -1h (expired at entry) and 1h (never fires) on every input; " +
 			"P = polls of ctx.Err() in an undisturbed run is measured, then one case per k in 0..P and per kind in {Canceled, DeadlineExceeded} with a context that reports done from its (k+1)-th poll on; " +
@@ -378,6 +386,30 @@ func Check() *common.Check {
 					c0 := probe.NewCountCtx(-1, nil)
 					en.run(c0, in.sql)
 					P := c0.Calls
+					// "after a bounded amount of further work": between two polls the call may only do a bounded amount of work,
+					// whatever the shape of the input - the number of polls of the undisturbed run grows with the input
+					// (at least one poll per 128 tokens; the tokenizer polls every 100 tokens, the parser at every expression)
+					if strings.HasPrefix(in.fam, "over-big-") || strings.HasPrefix(in.fam, "tokens-") {
+						P := P
+						e.Do(fmt.Sprintf("%s|%s|poll-density", en.name, in.fam), func(c *common.Ctx) {
+							c.Input(fmt.Sprintf("%s, polls of the undisturbed run on: %s", en.name, common.Trim(in.sql, 200)))
+							tk, terr := tokenizer.New()
+							if terr != nil {
+								return
+							}
+							toks, terr := tk.Tokenize([]byte(in.sql))
+							if terr != nil {
+								c.Outcome("poll-density:not-tokenizable")
+								return
+							}
+							c.Count("fault_points", 1)
+							if P*128 < len(toks) {
+								c.Fail("poll-starvation:"+famClass(in.fam), fmt.Sprintf(en.name+": "+"the undisturbed run polls the context %d times for %d tokens (less than one poll per 128 tokens): a context that turns done in between is not seen for an input-proportional amount of work", P, len(toks)))
+							}
+							c.Outcome("poll-density")
+							c.NonTrivial()
+						})
+					}
 					for k := 0; k <= P; k++ {
 						if strings.HasPrefix(in.fam, "over-") && !(k <= 2 || k >= P-2 || k == P/2) {
 							continue
@@ -423,6 +455,15 @@ func Check() *common.Check {
 			}
 		},
 	}
+}
+
+// famClass is the input family without its size: over-big-paren-sum-1030 -> over-big-paren-sum.
+func famClass(fam string) string {
+	i := len(fam)
+	for i > 0 && fam[i-1] >= '0' && fam[i-1] <= '9' {
+		i--
+	}
+	return strings.TrimRight(fam[:i], "-")
 }
 
 func kindName(k error) string {
